@@ -17,3 +17,21 @@ func VerifRedirectActionC49(cmd string, params []string, req *bfe_basic.Request)
 	redirectActionsDo(req, actionsConvert(list))
 	return req.Redirect.Url, nil
 }
+
+var verifModC49 *ModuleRedirect
+
+// VerifRedirectResetC49 starts a history on a fresh module instance (empty rule table).
+func VerifRedirectResetC49() { verifModC49 = NewModuleRedirect() }
+
+// VerifRedirectReloadC49 reloads the rule file through the module's reload handler
+// (loadConfData -> redirectConfLoad -> RedirectTable.Update).
+func VerifRedirectReloadC49(path string) error {
+	_, err := verifModC49.loadConfData(map[string][]string{"path": {path}})
+	return err
+}
+
+// VerifRedirectRequestC49 runs redirectHandler on req and returns its return code.
+func VerifRedirectRequestC49(req *bfe_basic.Request) int {
+	ret, _ := verifModC49.redirectHandler(req)
+	return ret
+}
